@@ -422,8 +422,17 @@ fn run_batch(cfg: &Value) -> Value {
     #[cfg(not(feature = "model"))]
     if cfg["attacks"].as_bool().unwrap_or(false) && all_proved {
         // REAL flavour: concrete attacks that only succeed when a derivation is weaker than documented (replay of C08 / C13 / C14 findings)
-        let proofs: Vec<Vec<u8>> = members.iter().map(|m| m.proof.as_ref().unwrap().to_bytes()).collect();
-        let statements: Vec<RangeStatement<RistrettoPoint>> = members.iter().map(|m| m.statement.clone()).collect();
+        let mut proofs: Vec<Vec<u8>> = members.iter().map(|m| m.proof.as_ref().unwrap().to_bytes()).collect();
+        let mut statements: Vec<RangeStatement<RistrettoPoint>> = members.iter().map(|m| m.statement.clone()).collect();
+        let mut transcripts = transcripts.clone();
+        let mut honest: Vec<RistrettoRangeProof> = members.iter().map(|m| m.proof.as_ref().unwrap().clone()).collect();
+        if cfg["duplicate_last"].as_bool().unwrap_or(false) {
+            // the last (statement, proof, transcript) submitted twice
+            proofs.push(proofs.last().unwrap().clone());
+            statements.push(statements.last().unwrap().clone());
+            transcripts.push(transcripts.last().unwrap().clone());
+            honest.push(honest.last().unwrap().clone());
+        }
         let verify = |forged: &[Vec<u8>]| -> Vec<bool> {
             let ps: Vec<RistrettoRangeProof> = match forged.iter().map(|b| RistrettoRangeProof::from_bytes(b)).collect::<Result<Vec<_>, _>>() {
                 Ok(p) => p,
@@ -431,7 +440,7 @@ fn run_batch(cfg: &Value) -> Value {
             };
             // each forged proof must be invalid on its own ...
             for i in 0..ps.len() {
-                if ps[i] != *members[i].proof.as_ref().unwrap() {
+                if ps[i] != honest[i] {
                     let mut t1 = vec![transcripts[i].clone()];
                     if RangeProof::verify_batch(&mut t1, &statements[i..i + 1], &ps[i..i + 1], VerifyAction::VerifyOnly).is_ok() {
                         return vec![false];
@@ -447,7 +456,7 @@ fn run_batch(cfg: &Value) -> Value {
                 })
                 .collect()
         };
-        let wa = refimpl::weight_attack(&transcripts, &statements, &proofs, &verify);
+        let wa = refimpl::weight_attack(&transcripts, &statements, &proofs, &verify, &cfg["weight_recipe"]);
         let mut guesses = Vec::new();
         let mut opened = Vec::new();
         for (i, mem) in members.iter().enumerate() {
